@@ -11,7 +11,7 @@ requires the call to keep waiting unless the reply is authentic.  Histories thro
 refresh retried) check the precondition of all this: the session still acts as the configured user afterwards."""
 import json
 from vlib import env, tlc, trace, corpus, rawdrv, agent as ag, scripts, sesscheck
-from vlib.report import Check, confirm_by_replay
+from vlib.report import Check, confirm_by_replay, timing_event
 from vlib.env import ToolError, SEED
 
 CFGS = ["v3-md5", "v3-sha1", "v3-md5-des", "v3-sha1-aes", "v3-md5-aes", "v3-sha1-des"]
@@ -150,7 +150,7 @@ def run(tier):
             chk.violation(dict(kind="api-history", client=info["kind"], ev=ev["ev"], op=ev.get("op"), got=ev.get("exc") or "ok"),
                           "%s session configured with auth=%s priv=%s, calls %s with datagrams %s lost: %s (%s) %s - the session no longer acts as the configured user" %
                           (info["kind"], info["auth"], info["priv"], info["calls"], [k for k, p in enumerate(info["plan"]) if p == "drop"], ev["ev"], ev.get("op"), ev.get("exc") or ""),
-                          dict(info=info), confirm=confirm_by_replay(c13.replay, dict(info=info)))
+                          dict(info=info), confirm=(confirm_by_replay(c13.replay, dict(info=info)) if timing_event(ev) else None))
             continue
         f = info["forgery"]
         has_priv = std[info["cfg"]].priv != "none"
